@@ -263,6 +263,19 @@ def judge_load(run, i, nid, ev, out, outcomes):
             pass
     is_err = isinstance(out, list) and out[:1] == ["E"]
     base = {"oracle": "O5", "role": "private" if tbl != "public" else "public", "group": "pickle", "event": i}
+    if ref and ref[0] == "formula":
+        # a pickled Formula of tbl: every atom must come back as the receiver's own atom of tbl
+        base["group"] = "pickle_formula"
+        s = ref[1]
+        if is_err:
+            if out[1] == "NoSuchMessage" or not has_table or ("[" in s and not has_mass):
+                return None
+            return dict(base, kind="exception:" + out[1], expected={"all_mine": True}, observed=out)
+        if not has_table:
+            return dict(base, kind="no_exception", expected=["E", "ValueError"], observed=out)
+        if not isinstance(out, dict) or not out.get("all_mine") or out.get("formula_tables") not in ([tbl], []):
+            return dict(base, kind="wrong_object", expected={"formula_tables": [tbl], "all_mine": True}, observed=out)
+        return None
     if not has_table:
         if not is_err:
             return dict(base, kind="no_exception", expected=["E", "ValueError"], observed=out)
